@@ -181,25 +181,35 @@ def one_call(cname, h, ns, regns, target, calls, results, required, subset,
             r = loop.run_value(r)
     except Exception as e:
         result.violation(key + '/exception', f'{what} raised {e!r}',
-                         {'call': what})
+                         {'call': what, 'rerun': {'module': 'mc.checks.c17',
+                                                 'func': 'rerun'}})
         return True
     if len(calls) != 1 or calls[0][0] != h:
         result.violation(key + '/target', f'{what}: underlying calls '
-                         f'{calls!r}', {'call': what})
+                         f'{calls!r}', {'call': what, 'rerun': {'module': 'mc.checks.c17',
+                                                 'func': 'rerun'}})
         return True
     got = calls[0][1]
     for n, v in supplied.items():
         if n not in got or got[n] is not v:
             result.violation(
                 key + '/' + n, f'{what}: parameter {n!r} arrived as '
-                f'{got.get(n, "<absent>")!r}', {'call': what})
+                f'{got.get(n, "<absent>")!r}', {'call': what, 'rerun': {'module': 'mc.checks.c17',
+                                                 'func': 'rerun'}})
     if 'namespace' in got or any(p.name == 'namespace' for p in hparams):
         if 'namespace' not in supplied and got.get('namespace') != regns:
             result.violation(
                 key + '/namespace-default', f'{what}: namespace arrived as '
                 f'{got.get("namespace")!r}, registered for {regns!r}',
-                {'call': what})
+                {'call': what, 'rerun': {'module': 'mc.checks.c17',
+                                                 'func': 'rerun'}})
     if r is not results[h]:
         result.violation(key + '/result', f'{what}: returned {r!r}, target '
-                         f'returned {results[h]!r}', {'call': what})
+                         f'returned {results[h]!r}', {'call': what, 'rerun': {'module': 'mc.checks.c17',
+                                                 'func': 'rerun'}})
     return True
+
+
+def rerun(result):
+    common.setup_imports()
+    run('quick', common.seed_from_env(), result)
